@@ -28,6 +28,7 @@ will trigger as readable in `select <select.select>`.
 import sys
 import os
 import socket
+import threading
 
 
 def make_pipe():
@@ -44,6 +45,9 @@ class PosixPipe:
         self._set = False
         self._forever = False
         self._closed = False
+        # set/clear are called from different threads (the transport thread
+        # feeding data, application threads reading it)
+        self._lock = threading.RLock()
 
     def close(self):
         os.close(self._rfd)
@@ -55,20 +59,23 @@ class PosixPipe:
         return self._rfd
 
     def clear(self):
-        if not self._set or self._forever:
-            return
-        os.read(self._rfd, 1)
-        self._set = False
+        with self._lock:
+            if not self._set or self._forever:
+                return
+            os.read(self._rfd, 1)
+            self._set = False
 
     def set(self):
-        if self._set or self._closed:
-            return
-        self._set = True
-        os.write(self._wfd, b"*")
+        with self._lock:
+            if self._set or self._closed:
+                return
+            self._set = True
+            os.write(self._wfd, b"*")
 
     def set_forever(self):
-        self._forever = True
-        self.set()
+        with self._lock:
+            self._forever = True
+            self.set()
 
 
 class WindowsPipe:
@@ -123,16 +130,21 @@ class OrPipe:
         self._set = False
         self._partner = None
         self._pipe = pipe
+        # shared with the partner (see make_or_pipe): the two halves are
+        # driven by different threads and update the same underlying pipe
+        self._lock = threading.Lock()
 
     def set(self):
-        self._set = True
-        if not self._partner._set:
-            self._pipe.set()
+        with self._lock:
+            self._set = True
+            if not self._partner._set:
+                self._pipe.set()
 
     def clear(self):
-        self._set = False
-        if not self._partner._set:
-            self._pipe.clear()
+        with self._lock:
+            self._set = False
+            if not self._partner._set:
+                self._pipe.clear()
 
 
 def make_or_pipe(pipe):
@@ -145,4 +157,5 @@ def make_or_pipe(pipe):
     p2 = OrPipe(pipe)
     p1._partner = p2
     p2._partner = p1
+    p2._lock = p1._lock
     return p1, p2
